@@ -67,14 +67,14 @@ func negoCase(role string, mechNames []string, chunks [][]byte) (o outcome, stuc
 	select {
 	case o := <-done:
 		return o, ""
-	case <-time.After(watchdog):
+	case <-time.After(wd()):
 		return outcome{stalled: true, where: "session negotiation did not return although the peer's input had ended"}, stuckFrame()
 	}
 }
 
 // negoRun is a separate function so that the stuck goroutine can be found by name.
 func negoRun(role string, conn *nc.Conn, neg xmpp.Negotiator) {
-	ctx, cancel := context.WithTimeout(context.Background(), watchdog/2)
+	ctx, cancel := context.WithTimeout(context.Background(), wd()/2)
 	defer cancel()
 	if role == "s" {
 		_, _ = xmpp.ReceiveSession(ctx, conn, xmpp.Secure, neg)
@@ -205,14 +205,19 @@ func (c *ctx) nego(w negoWitness, class string) {
 	if c.stalls["nego"] >= 2 || !c.begin(line) {
 		return
 	}
-	o, stuck := negoCase(w.role, strings.Split(w.mechs, ","), chunks)
+	var stuck string
+	o := retryStalled(func() outcome {
+		var oo outcome
+		oo, stuck = negoCase(w.role, strings.Split(w.mechs, ","), chunks)
+		return oo
+	})
 	if o.stalled {
 		c.stalls["nego"]++
 		// a stuck negotiation keeps its goroutine (and, for a busy loop, a core) until the
 		// child exits: the key names where it is stuck
 		r := rec{Lines: [][2]string{{line, "STALL"}}, Canon: line, Class: class + ":STALL",
 			Fail: &recFail{Clause: "no-wedge", Key: "stall:nego:" + stuck, Lines: []string{c.r.Prop + " " + line},
-				Detail: "still running after " + watchdog.String() + ": " + o.where + "; stuck in " + stuck}}
+				Detail: "still running after " + wd().String() + ": " + o.where + "; stuck in " + stuck}}
 		c.emit(r)
 		return
 	}
